@@ -5,6 +5,7 @@
 -/
 import GoNeat.Proofs.WFPop
 import GoNeat.Model.Epoch
+import GoNeat.Proofs.SortLemmas
 
 namespace GoNeat.C01
 open GoNeat Scalar
@@ -88,7 +89,7 @@ theorem adjustFitness_genomes (o : EpochOpts W) (s s' : Species W) (h : adjustFi
     intro x hx
     obtain ⟨y, hy, e⟩ := markOrgs_genomes _ _ _ x hx
     unfold sortOrgsDesc at hy
-    rw [goInsertionSort_mem] at hy
+    rw [GoNeat.goSort_mem] at hy
     obtain ⟨z, hz, rfl⟩ := List.mem_map.mp hy
     exact ⟨z, hz, by rw [← e]; rfl⟩
 
@@ -231,7 +232,7 @@ theorem sortSpecies_relabel (ss : List (Species W)) : Relabel (sortSpeciesDesc s
   apply Relabel.of_sub
   intro s hs
   unfold sortSpeciesDesc at hs
-  exact (goInsertionSort_mem _ _ _).mp hs
+  exact (GoNeat.goSort_mem _ _ _).mp hs
 
 theorem deltaCoding_relabel (sorted sorted' : List (Species W)) (o : EpochOpts W) (h : deltaCoding sorted o = .ok sorted') :
     Relabel sorted' sorted := by
